@@ -106,6 +106,7 @@ class Acc:
         self.caps = []
         self.errors = []          # machinery errors (never a silent pass)
         self.memo = {}            # (operation, argument digest) -> result, shared across histories and merged across workers
+        self.task = None          # (function name, arg) of the worker task being run: context for history-dependent violations
         self.unknown_viol = 0
         self.budget = None        # set in worker tasks: stop a task after this many non-known violations
 
@@ -141,7 +142,7 @@ class Acc:
                 return
             lst = self.viol[key] = []
         if len(lst) < self.MAX_PER_KEY:
-            lst.append((case, str(msg)[:2000]))
+            lst.append((case, str(msg)[:2000], self.task))
 
     def merge(self, o):
         self.states += o.states
@@ -308,6 +309,7 @@ def _run_task(t):
     modname, fname, arg = t
     acc = Acc()
     acc.budget = int(os.environ.get('VERIF_VIOLATION_BUDGET', '25'))
+    acc.task = (fname, arg)
     try:
         mod = _WORKER_MODS.get(modname)
         if mod is None:
